@@ -3,7 +3,9 @@ package props
 import (
 	"bytes"
 	"encoding/hex"
+	"encoding/json"
 	"fmt"
+	"github.com/libsv/go-bt/v2/bscript"
 	"io"
 
 	"github.com/libsv/go-bt/v2"
@@ -180,6 +182,26 @@ func c01Struct(rc txRecipe) (fs []rep.Finding) {
 					fs = append(fs, rep.F("ReadFrom|into-used-tx|"+form.name, d))
 				}
 			}
+		}
+		// an Input object that has been serialised is then decoded into from JSON (encoding/json
+		// reuses the elements of a slice it decodes into): what it serialises to afterwards is
+		// what it now holds
+		if len(ref.Ins) > 0 && form.name == "std" {
+			donor := &bt.Input{PreviousTxOutIndex: 77, SequenceNumber: 0x01020304, UnlockingScript: bscript.NewFromBytes([]byte{0x51, 0x52})}
+			_ = donor.PreviousTxIDAdd(txid32(0xd7))
+			if jb, err := json.Marshal(donor); err == nil {
+				_ = t1.Bytes()
+				if err := json.Unmarshal(jb, t1.Inputs[0]); err == nil {
+					exp2 := *ref
+					exp2.Ins = append([]txref.In(nil), ref.Ins...)
+					exp2.Ins[0] = txref.In{TxID: txid32(0xd7), Vout: 77, Seq: 0x01020304, Script: []byte{0x51, 0x52}}
+					if !bytes.Equal(t1.Bytes(), exp2.Bytes(false)) {
+						fs = append(fs, rep.F("Bytes|stale-after-json-decode-into-input", "an input that had been serialised was decoded into from JSON; the transaction does not serialise to what it now holds"))
+					}
+				}
+			}
+			// t1 is parsed again for the steps below
+			t1, _ = bt.NewTxFromBytes(form.b)
 		}
 		// re-serialise in the arrival format
 		var again []byte
